@@ -35,7 +35,10 @@ CONSTANTS
     Dev_RollbackKeepsAttached, \* rollback closure restores heads but leaves the changes attached
     Dev_IsAfterStrict,         \* isAfterNoCheck uses > instead of >=
     Dev_NoHasHead,             \* PermissionsAtRecord without the HasHead guard
-    Dev_NoParentAclCheck       \* validateChange without the "acl head not older than parents'" loop
+    Dev_NoParentAclCheck,      \* validateChange without the "acl head not older than parents'" loop
+    Dev_StaleScratch,          \* Unmarshall keeps the signature of the previous call in its scratch message
+    Dev_MemoWriter,            \* one validation pass checks "is writer" once per author, whatever record is cited
+    Dev_RollbackOnlyHeads      \* rollback detaches the rejected changes from the previous heads only
 
 (* A bounds record:                                                                             *)
 (*   MaxAcl      timeline records after the prelude                                             *)
@@ -46,18 +49,25 @@ CONSTANTS
 (*   Authors     subset of {"S","W","X"}: who signs the candidate                               *)
 (*   Muts        subset of AllMuts: mutation classes applied to the candidate                   *)
 (*   PKinds      subset of AllPKinds: what the candidate names as parents                       *)
+(*   FAuthors    subset of {"S","W"}: who signs the valid-looking fillers                       *)
+(*   FCites      "two" (fillers cite the newest record or the newest record of the heads) or    *)
+(*               "all" (any known record)                                                       *)
+(*   Shape       "full" | "hist": hist = candidate alone, or behind one filler of the subject,  *)
+(*               or the signature-less twin of the change unmarshalled just before              *)
 (*   Filters     subset of BOOLEAN: is the tree built with the filtering validator              *)
 (*               (BuildKeyFilterableObjectTree: changes citing an unknown ACL record are        *)
 (*               dropped by FilterChanges instead of failing validation)                        *)
 
 AllEvents == {"addW", "addR", "joinW", "req", "accW", "promote", "demote", "remove", "other"}
-AllMuts   == {"none", "bytes", "bytesReid", "id", "idDup", "swap", "unsigned"}
+AllMuts   == {"none", "bytes", "bytesReid", "id", "idDup", "swap", "unsigned", "twin"}
 AllPKinds == {"heads", "fork", "redundant", "unknown", "oldroot"}
 
 ASSUME \A f \in DOMAIN Bounds :
           /\ Bounds[f].Events \subseteq AllEvents /\ Bounds[f].Muts \subseteq AllMuts
           /\ Bounds[f].PKinds \subseteq AllPKinds
-          /\ Bounds[f].Kinds \subseteq {"signed", "derived", "reduced"}
+          /\ Bounds[f].Kinds \subseteq {"signed", "derived", "reduced", "grown"}
+          /\ Bounds[f].FAuthors \subseteq {"S", "W"} /\ Bounds[f].FCites \in {"two", "all"}
+          /\ Bounds[f].Shape \in {"full", "hist"}
           /\ Bounds[f].Authors \subseteq {"S", "W", "X"}
 
 VARIABLES
@@ -84,6 +94,7 @@ Kinds == B.Kinds
 Authors == B.Authors
 Muts == B.Muts
 PKinds == B.PKinds
+FAuthors == B.FAuthors
 
 N == Len(acl)
 UnknownRec == N + 1          \* a record id the local replica does not hold
@@ -150,9 +161,13 @@ CodePerm(who, i) ==
 
 (* ------------------------------ changes ------------------------------------- *)
 \* kind: "root" signed root, "droot" unsigned derived root, "snap" snapshot, "ch" ordinary
+\* tw # 0: the raw change carries exactly the signed payload of change tw but no signature field
 Chg(id, kind, au, named, cite, par, snap, cidOk, sigOk) ==
     [id |-> id, kind |-> kind, au |-> au, named |-> named, cite |-> cite, par |-> par,
-     snap |-> snap, cidOk |-> cidOk, sigOk |-> sigOk]
+     snap |-> snap, cidOk |-> cidOk, sigOk |-> sigOk, tw |-> 0]
+\* the signature-less twin of change t: same payload bytes (hence same identity, cited record,
+\* parents), signature field absent on the wire, id = hash of the new bytes
+Twin(id, t) == [t EXCEPT !.id = id, !.sigOk = FALSE, !.tw = t.id, !.kind = "ch"]
 
 Ids(cs) == {c.id : c \in cs}
 ById(cs, i) == CHOOSE c \in cs : c.id = i
@@ -172,9 +187,13 @@ Authorised(c, cs) ==
 PropOK(c, cs) == Authentic(c) /\ Authorised(c, cs)
 
 \* objecttreevalidator.validateChange, with tr = the tree it runs on, rootId = tr.RootId()
-CodeValid(c, tr, rootId) ==
+\* pass = the changes one ValidateNewChanges / ValidateFullTree call looks at (Dev_MemoWriter only)
+CodeValidIn(c, tr, rootId, pass) ==
     \/ c.kind = "droot"
-    \/ /\ CodePerm(c.named, c.cite) = "writer"
+    \/ /\ \/ CodePerm(c.named, c.cite) = "writer"
+          \/ /\ Dev_MemoWriter /\ c.cite \in 0..N
+             /\ \E e \in pass : e.id < c.id /\ e.kind # "droot" /\ e.named = c.named
+                                 /\ CodePerm(e.named, e.cite) = "writer"
        /\ \/ c.id = rootId
           \/ Dev_NoParentAclCheck
           \/ \A p \in c.par :
@@ -182,6 +201,7 @@ CodeValid(c, tr, rootId) ==
                  IN \/ pc.cite = c.cite
                     \/ pc.kind = "droot"
                     \/ (c.cite \in 0..N /\ pc.cite \in 0..N /\ c.cite >= pc.cite)   \* aclList.IsAfter
+CodeValid(c, tr, rootId) == CodeValidIn(c, tr, rootId, {})
 
 (* --------------------------- one delivery ----------------------------------- *)
 \* Tree.Add: a change attaches when all its parents and its snapshot are attached, in whatever
@@ -210,6 +230,21 @@ CommonSnapshot(batch, fresh0, fresh) ==
     ELSE memRoot
 FromStorage(common) == IF common = 1 THEN stored ELSE {c \in stored : c.id >= common}
 
+\* changeBuilder.Unmarshall(verify = true) over the batch in order.  The builder re-uses one scratch
+\* RawTreeChange; scr = id of the change whose signature the scratch message would still hold if it
+\* were not cleared before every call (it is: Dev_StaleScratch = FALSE).  A raw change without a
+\* signature field does not overwrite the scratch signature.
+RECURSIVE BadFrom(_, _, _)
+BadFrom(sq, k, scr) ==
+    IF k > Len(sq) THEN FALSE
+    ELSE LET c   == sq[k]
+             sig == c.sigOk \/ (Dev_StaleScratch /\ c.tw # 0 /\ c.tw = scr)
+         IN IF ~c.cidOk \/ ~sig THEN TRUE
+            ELSE BadFrom(sq, k + 1, IF c.tw = 0 THEN c.id ELSE scr)
+\* the change the tree's builder unmarshalled last: while a context is built, the last accepted
+\* delivery (0 = none, e.g. the root only)
+LastUnmarshalled == LET s == {c.id : c \in {x \in stored : x.kind = "ch"}} IN IF s = {} THEN 0 ELSE Max(s)
+
 \* the result of AddRawChanges(batch): [verdict, attached, heads, stored, memRoot]
 Res(v, a, h, s, r) == [verdict |-> v, attached |-> a, heads |-> h, stored |-> s, memRoot |-> r]
 Unchanged(v) == Res(v, attached, heads, stored, memRoot)
@@ -221,7 +256,7 @@ CodeDeliver(batch) ==
         fresh   == IF filt THEN SelectSeq(fresh0, LAMBDA c : c.cite \in 0..N) ELSE fresh0
         rebuild == \E k \in 1..Len(fresh) : fresh[k].snap # memRoot /\ fresh[k].snap \notin Ids(attached)
         verify  == ~(Dev_NoVerifyOnRebuild /\ rebuild)
-        badRaw  == verify /\ \E k \in 1..Len(fresh0) : ~fresh0[k].cidOk \/ ~fresh0[k].sigOk
+        badRaw  == verify /\ BadFrom(fresh0, 1, LastUnmarshalled)
     IN IF badRaw THEN Unchanged("reject")                      \* returns before touching the tree
        ELSE IF Len(fresh) = 0 THEN Unchanged("nothing")
        ELSE IF rebuild
@@ -232,7 +267,7 @@ CodeDeliver(batch) ==
                   base  == FromStorage(common)
                   tr    == AttachSeq(fresh, 1, base)
                   added == tr \ base
-                  ok    == \A c \in tr : CodeValid(c, tr, common)
+                  ok    == \A c \in tr : CodeValidIn(c, tr, common, tr)
               IN IF ok
                    THEN IF added = {} THEN Res("nothing", tr, HeadsOf(tr), stored, common)
                         ELSE Res("accept", tr, HeadsOf(tr), stored \cup added, common)
@@ -240,10 +275,12 @@ CodeDeliver(batch) ==
          ELSE \* normal path: Tree.Add, ValidateNewChanges(added), rollback closure, storage.AddAll
               LET tr    == AttachSeq(fresh, 1, attached)
                   added == tr \ attached
-                  ok    == \A c \in added : CodeValid(c, tr, memRoot)
+                  ok    == \A c \in added : CodeValidIn(c, tr, memRoot, added)
+                  \* Dev_RollbackOnlyHeads: what hangs off a change that was not a head stays linked
+                  left  == IF Dev_RollbackOnlyHeads THEN {c \in added : c.par \cap (Ids(attached) \ heads) # {}} ELSE {}
               IN IF added = {} THEN Unchanged("nothing")
                  ELSE IF ok THEN Res("accept", tr, HeadsOf(tr), stored \cup added, memRoot)
-                 ELSE Res("reject", IF Dev_RollbackKeepsAttached THEN tr ELSE attached, heads, stored, memRoot)
+                 ELSE Res("reject", IF Dev_RollbackKeepsAttached THEN tr ELSE attached \cup left, heads, stored, memRoot)
 
 \* the property's verdict for the same batch: reject iff some raw change that is looked at is not
 \* authentic, or some change that would be attached is not authorised
@@ -284,18 +321,29 @@ Cand(id, au, cite, pk, m, link) ==
          [] m = "idDup"     -> Chg(memRoot, "ch", au, au, cite, par, snap, FALSE, TRUE) \* id of a change already held
          [] m = "swap"      -> Chg(id, "ch", au, other, cite, par, snap, TRUE, FALSE) \* names another identity
          [] m = "unsigned"  -> Chg(id, "ch", au, au, cite, par, snap, TRUE, FALSE)   \* signature stripped, claims to be derived
+         [] OTHER           -> Chg(id, "ch", au, au, cite, par, snap, TRUE, FALSE)   \* ("twin" is built in BuildBatch)
 
-\* batch descriptor: nf fillers, candidate at position pos (0-based), fillers cite fc,
+\* batch descriptor: nf fillers signed by fa citing fc, candidate at position pos (0-based),
 \* fillers behind the candidate hang below it ("child") or beside it ("sibling")
+FCSet == IF B.FCites = "all" THEN 0..N ELSE {Max(HeadCites \cup {0}), N}
 Descs ==
     {d \in [nf : 0..MaxFill, pos : 0..MaxFill, after : {"child", "sibling"},
-            fc : {Max(HeadCites \cup {0}), N},
+            fa : FAuthors, fc : FCSet,
             au : Authors, cite : 0..(N + 1), pk : PKinds, m : Muts] :
         /\ d.pos <= d.nf
         /\ (d.pos = d.nf => d.after = "child")
-        /\ (d.nf = 0 => d.fc = N)
+        /\ (d.nf = 0 => (d.fc = N /\ d.fa = "W"))
         /\ (d.pk = "oldroot" => memRoot # 1)
-        /\ (d.pk = "redundant" => memRoot \notin heads)}
+        /\ (d.pk = "redundant" => memRoot \notin heads)
+        \* the twin copies everything from the change unmarshalled just before it: the previous
+        \* member of the batch, or (first position) the last change delivered to the tree
+        /\ (d.m = "twin" => /\ d.pk = "heads" /\ d.au = "W" /\ d.cite = 0
+                            /\ (d.pos = 0 => LastUnmarshalled # 0))
+        /\ (B.Shape = "hist" =>
+              \/ (d.nf = 0 /\ d.m = "none")
+              \/ (d.nf = 0 /\ d.m = "twin")
+              \/ (d.nf = 1 /\ d.pos = 1 /\ d.m = "none" /\ d.fa = "S" /\ d.au = "S")
+              \/ (d.nf = 1 /\ d.pos = 1 /\ d.m = "twin" /\ d.fc = N))}
 
 RECURSIVE BuildBatch(_, _, _, _)
 \* k = position being built (1-based), acc = sequence so far, base = highest id in use
@@ -309,8 +357,11 @@ BuildBatch(d, k, acc, base) ==
                         ELSE prev
              \* a well-formed sender names, as snapshot, the snapshot of the branch it builds on
              sn    == IF k > 1 /\ link = {acc[k - 1].id} THEN acc[k - 1].snap ELSE memRoot
-             c     == IF k = d.pos + 1 THEN Cand(id, d.au, d.cite, d.pk, d.m, prev)
-                      ELSE PlainSn(id, "W", d.fc, link, sn)
+             c     == IF k = d.pos + 1
+                        THEN (IF d.m = "twin"
+                                THEN Twin(id, IF k > 1 THEN acc[k - 1] ELSE ById(stored, LastUnmarshalled))
+                                ELSE Cand(id, d.au, d.cite, d.pk, d.m, prev))
+                        ELSE PlainSn(id, d.fa, d.fc, link, sn)
          IN BuildBatch(d, k + 1, Append(acc, c), base)
 
 BatchOf(d) == BuildBatch(d, 1, <<>>, MaxId)
@@ -321,6 +372,9 @@ InitTree(kind) ==
                              IN /\ attached = {r} /\ stored = {r} /\ heads = {1} /\ memRoot = 1
       [] kind = "derived" -> LET r == Chg(1, "droot", "none", "none", 0, {}, 0, TRUE, FALSE)
                              IN /\ attached = {r} /\ stored = {r} /\ heads = {1} /\ memRoot = 1
+      [] kind = "grown"   -> LET r == Chg(1, "root", "W", "W", 0, {}, 0, TRUE, TRUE)
+                                 g == Chg(2, "ch", "W", "W", 0, {1}, 1, TRUE, TRUE)
+                             IN /\ attached = {r, g} /\ stored = {r, g} /\ heads = {2} /\ memRoot = 1
       [] kind = "reduced" -> LET r == Chg(1, "root", "W", "W", 0, {}, 0, TRUE, TRUE)
                                  s == Chg(2, "snap", "W", "W", 0, {1}, 1, TRUE, TRUE)
                              IN /\ attached = {s} /\ stored = {r, s} /\ heads = {2} /\ memRoot = 2
